@@ -6,6 +6,32 @@ BASELINE = ("cd /repo && cargo nextest run --workspace --no-fail-fast --tool-con
             "--profile pb --test-threads 8 --offline")
 
 CLAIMED = {
+    'C06': dict(
+        technique='Lean 4 proof: fair-termination rule (global measure + per-thread ranks + helpful/ready thread; extended to strong '
+                  'fairness with a lock-release sub-argument) instantiated on the pc-machine model of the pipeline, on top of '
+                  'inductive invariants for every schedule (mutual exclusion / ownership of the wait-strategy mutex, no lost '
+                  'wake-up) + trace replay of real executions under the deterministic scheduler, which reports deadlock / budget '
+                  '(hang) / panic ends',
+        text='Single-producer pipelines, every ring size, topology (K>=1 stages, >=1 handler each) and batch list with 1<=b<=N '
+             '(covers the property\'s b<N; includes the empty list = drained without publishing). (a) spin strategy: '
+             'c06_spin_terminates — every weakly fair schedule (every thread scheduled infinitely often) reaches the state where '
+             'all write calls, drain and Drop returned and every handler thread exited (join returns); c06_write_returns, '
+             'c06_zero_events_drains. (b) both strategies, every schedule (Reachable): c06_no_deadlock (some thread always has an '
+             'enabled, non-stutter step), c06_mutual_exclusion (a thread is between lock and unlock/cvar.wait iff it owns the mutex), '
+             'c06_no_lost_wakeup (a parked handler whose condition holds or is_done is set has been notified, or another thread is '
+             'between its store and its notify_all), c06_wait_conditions_stable, c06_all_written_at_exit. (c) blocking strategy: '
+             'c06_blocking_terminates / c06_blocking_write_returns — same conclusion as (a) for every schedule that is weakly fair and '
+             'strongly fair for lock acquisition (LockFair: a lock / relock step enabled infinitely often is eventually taken); '
+             'c06_blocking_some_thread_ready (in every non-terminal state some thread can make progress). Generic rule: '
+             'Fair.fair_termination_sf / Fair.fair_termination (Lemmas/FairTermination.lean). Partial: the multi-producer sequencer is '
+             'not modelled for liveness — its runs are judged by the oracle on the implementation events; known finding F11 (a sequence '
+             'stranded by out-of-order publication makes later write()/drain() spin for ever). Fairness of the real OS scheduler / '
+             'std::sync::Mutex, timing and spurious condvar wake-ups are not modelled.',
+        note='Trusted: as C04, plus the fairness assumptions (weak fairness; for the blocking strategy strong fairness of lock '
+             'acquisition) — assumptions about the OS scheduler and std::sync::Mutex, not facts about the code; the deterministic '
+             'scheduler classifies a run as deadlock when no managed thread is enabled and as budget when the step budget passes '
+             '(a spinning hang); F6 (drain underflow) is repaired in /repo and the model uses the repaired saturating subtraction.',
+        ref='DESIGN.md §7 C06, §5.3'),
     'C05': dict(
         technique='Lean 4 proof: vector-clock (happens-before) ghost state layered on the pc-machine model of the pipeline, ghost '
                   'invariant preserved by every step of every thread for every schedule, memory orderings taken from the source by '
